@@ -144,7 +144,7 @@ def check(spec, tier, seed, replay=None):
         D.log("VIOLATION property=%s replay=%s no-failing-input-found" % (pid, path))
         pure.evidence(spec, tier, seed, None, None, t0, 1, dict(ok=False, printed=[], closed=0, axioms=[], blocks=0), ["harness build failed"])
         return 1
-    ok, out = D.build_coq(spec.get("coq_targets"))
+    ok, out = D.build_coq(spec.get("coq_targets"), clean=(tier == "thorough" and not os.environ.get("VERIF_NO_CLEAN")))
     if not ok:
         proof_broken.append("coq build failed:\n" + "\n".join(l for l in out.splitlines() if "rror" in l or "File " in l)[-3000:])
     bad = D.scan_forbidden([os.path.join(D.COQ, t[:-1]) for t in spec.get("coq_targets", [])] + [os.path.join(D.COQ, "theories", "Props", pid + ".v")])
@@ -153,6 +153,11 @@ def check(spec, tier, seed, replay=None):
     audit = D.audit_props(pid)
     if not audit["ok"]:
         proof_broken.append("Props/%s.v does not check or depends on unlisted axioms: %s\n%s" % (pid, audit.get("bad_axioms"), audit["log"][-2500:]))
+    if tier == "thorough" and not proof_broken:
+        chk = D.coqchk(pid)
+        audit["coqchk"] = dict(ok=chk["ok"], axioms=chk["axioms"], wall_s=chk["wall_s"])
+        if not chk["ok"]:
+            proof_broken.append("coqchk does not accept the compiled closure of Props/%s.vo:\n%s" % (pid, chk["log"]))
 
     sim = simulate(seed, tier, replay)
     if not sim.get("ok"):
